@@ -564,6 +564,7 @@ func (st *State) unop(fr *Frame, x *ssa.UnOp) Val {
 		st.guardAccess(fr, p, false, x.Pos())
 		lv := st.loadPtr(p, x.Pos())
 		st.noteMapOwner(p, lv)
+		st.noteChanOwner(p, lv)
 		return lv
 	case token.NOT:
 		return Val{T: x.Type(), C: []string{not(st.val(fr, x.X).C[0])}}
@@ -681,6 +682,12 @@ func (st *State) makeInterface(v Val, it types.Type) Val {
 		r := st.newRef("box")
 		st.storePtr(&Ptr{Kind: PObj, Root: r, RootT: v.T, T: v.T}, v, token.NoPos)
 		payload = r
+		if n, ok := v.T.(*types.Named); ok && n.Obj().Name() == "detachedContext" && n.Obj().Pkg() == e.P.TPkg && len(v.C) == 2 {
+			// by the contract of (detachedContext).Value (C06.detached.value): Value(k) == parent.Value(k) for every key
+			st.assume(fmt.Sprintf("(forall ((kt Int) (kv Int)) (! (and (= (ctxval_tag %s %s kt kv) (ctxval_tag %s %s kt kv)) (= (ctxval_val %s %s kt kv) (ctxval_val %s %s kt kv))) :pattern ((ctxval_tag %s %s kt kv)) :pattern ((ctxval_val %s %s kt kv))))",
+				tag, r, v.C[0], v.C[1], tag, r, v.C[0], v.C[1], tag, r, tag, r))
+			e.assumeUsed("a detachedContext value answers Value(k) like its parent (contract of (detachedContext).Value, verified: C06.detached.value)")
+		}
 	}
 	res := Val{T: it, C: []string{tag, payload}}
 	return res
@@ -913,7 +920,7 @@ func (st *State) chanRecv(fr *Frame, x *ssa.UnOp) Val {
 	ch := st.val(fr, x.X)
 	// A receive blocks until a value is sent or the channel is closed. The package only ever closes its channels,
 	// so a completed receive means the channel is closed (happens-before edge from close).
-	st.assume(st.chanClosed(ch.C[0]))
+	st.setChanClosed(ch.C[0], "true") // somebody (possibly another thread) has closed it by now
 	e.assumeUsed("channel receive returns only after close (no sends on these channels); close happens-before the receive")
 	st.onChanRecv(fr, ch, x.Pos())
 	et := ch.T.Underlying().(*types.Chan).Elem()
